@@ -66,7 +66,7 @@ func fontFromCase(f []string) (*type1.Font, bool, type1.FileFormat) {
 		r := newRng(seed)
 		font = randFont(r, true)
 		mk := func(special string) string {
-			return strings.Repeat("a", k) + special + strings.Repeat("b", 600-k)
+			return strings.Repeat("a", k) + special + strings.Repeat("b", max(600-k, 40))
 		}
 		font.FontInfo.Notice = mk(pick(r, []string{"\\", "\\n", "\\1", "\r", "\r\n"}))
 		font.FontInfo.Copyright = mk(pick(r, []string{"(", ")", ")(", "\x00", "\xff"}))
@@ -117,6 +117,11 @@ func suiteT1rt(o *suiteOut, r *rng, tier string, n int) {
 	for _, ff := range allFormats {
 		t1rtCase(o, fmt.Sprintf("t1rt 4242 hvfrac %s", formatName(ff)))
 		o.count("short curve forms with awkward fractions")
+	}
+	for k := 0; k <= 700; k++ {
+		// text fields of 600 bytes and more with a byte that needs escaping at every offset
+		t1rtCase(o, fmt.Sprintf("t1rt %d longstr%d %s", 8000+k, k, formatName(allFormats[k%len(allFormats)])))
+		o.count("long text fields with a special byte at every offset")
 	}
 	for i := 0; i < nr; i++ {
 		seed := r.next() % 1000000007
